@@ -102,3 +102,9 @@ Definition oracle_mode (input : list N) : nat :=
 
 (* C07: remainder of data * x^k by the degree-k RS generator *)
 Definition oracle_ec (data : list N) (k : nat) : list N := poly_rem data (rs_generator k).
+
+(* C02 on the output of structure() directly: every block of the codeword sequence has zero syndromes and the
+   de-interleaved data codewords are the first D bytes of the data handed in *)
+Definition oracle_rs_stream (v l : nat) (cw data : list N) : bool :=
+  forallb (fun b : list N * list N => forallb (N.eqb 0) (syndromes (fst b ++ snd b) (iso_ec v l))) (iso_blocks_of v l cw)
+  && list_eqb N.eqb (iso_deinterleave_data v l cw) (firstn (iso_data_codewords v l) data).
